@@ -174,7 +174,7 @@ def replay(v, native):
             return {'reproduced': v['kind'] == 'panic', 'stderr': p.stderr.decode('utf-8', 'replace')[-400:]}
         if v['kind'] == 'panic':
             return {'reproduced': False}
-        res = json.loads(p.stdout.decode().strip().splitlines()[-1]) if p.stdout.strip() else {}
+        res = json.loads(p.stdout.decode().strip().split('\n')[-1]) if p.stdout.strip() else {}
         got = json.load(open(out)) if os.path.exists(out) else None
         args = [bytes_of_json(t).decode('utf-8') for t in inp['args']]
         ov = bytes_of_json(inp['override']).decode('utf-8') if inp.get('override') else None
